@@ -400,6 +400,69 @@ def py_final_dims(rows):
     return (len(out), cols)
 
 
+def d_xlsx(ctx):
+    """Sparse XLSX sheets through openpyxl's read-only reader, _read_sheet_data and _format_sheet_as_text: the row
+    count, the widest row and each row's width vs C12.Xlsx (widths / num_cols), and the size of the text block."""
+    from openpyxl import load_workbook
+    from props import c12_amp
+    from sharepoint2text.parsing.extractors.ms_modern import xlsx_extractor as xe
+    rng = ctx.rng
+
+    def colname(c):
+        s_ = ""
+        while c:
+            c, rem = divmod(c - 1, 26)
+            s_ = chr(65 + rem) + s_
+        return s_
+    cases, info = [], []
+    for it in range(ctx.n(120, 1200)):
+        shape = rng.choice(["sparse", "sparse", "dense", "far-row", "far-col", "single", "gap-first-row"])
+        if shape == "dense":
+            n, m = rng.randint(1, 6), rng.randint(1, 6)
+            cells = {(r, c) for r in range(1, n + 1) for c in range(1, m + 1)}
+        elif shape == "far-row":
+            cells = {(1, 1), (rng.randint(2, 400), rng.randint(1, 3))}
+        elif shape == "far-col":
+            cells = {(1, rng.randint(1, 3)), (rng.randint(1, 3), rng.randint(4, 300))}
+        elif shape == "single":
+            cells = {(rng.randint(1, 30), rng.randint(1, 30))}
+        elif shape == "gap-first-row":
+            cells = {(rng.randint(2, 9), rng.randint(1, 9)) for _ in range(rng.randint(1, 5))}
+        else:
+            cells = {(rng.randint(1, 25), rng.randint(1, 25)) for _ in range(rng.randint(1, 12))}
+        rows = {}
+        for r, c in cells:
+            rows.setdefault(r, []).append(c)
+        xml = c12_amp._SH + "<sheetData>" + "".join(
+            f'<row r="{r}">' + "".join(f'<c r="{colname(c)}{r}" t="inlineStr"><is><t>v{r}x{c}</t></is></c>' for c in sorted(rows[r])) + "</row>"
+            for r in sorted(rows)) + "</sheetData></worksheet>"
+        data = c12_amp._xlsx(xml)
+        try:
+            wb = load_workbook(io.BytesIO(data), read_only=True, data_only=True)
+            try:
+                _, all_rows = xe._read_sheet_data(wb.worksheets[0])
+                text = xe._format_sheet_as_text(all_rows)
+            finally:
+                wb.close()
+        except Exception as e:  # noqa
+            ctx.count("xlsx:error:" + type(e).__name__)
+            continue
+        ws_ = [len(r) for r in all_rows]
+        n_rows, k = len(all_rows), max(ws_, default=0)
+        ctx.case(("xlsx", tuple(sorted(cells))), len(cells) < n_rows * max(k, 1), kind="xlsx:" + shape)
+        zl = lambda l: "[" + ";".join(str(x) for x in l) + "]"
+        cases.append(f"([{';'.join(f'({r},{c})' for r, c in sorted(cells))}], ({n_rows}, {k}, {zl(ws_)}))%Z")
+        info.append((sorted(cells), n_rows, k))
+        # the aligned text really has a field (>= 1 character) for every grid position
+        if text and (len(text.split("\n")) != n_rows or any(len(line) < k - 1 for line in text.split("\n"))):
+            ctx.finding("xlsx-text-not-a-full-grid", f"XLSX sheet text is not a rows x widest-row grid for cells {sorted(cells)[:6]}",
+                        {"cells": sorted(cells), "text": text[:400], "input": data})
+    pre = "From Coq Require Import ZArith List.\nImport ListNotations.\nFrom S2T Require Import C12.Xlsx.\nOpen Scope Z_scope.\n"
+    ok, failing, log = coq_eval_shards(ctx, "xlsx", pre, "xlsx_case", cases, ty="list xcell * (Z * Z * list Z)")
+    ctx.obligation("correspondence:widths/num_cols==openpyxl read-only rows through _read_sheet_data", ok and not failing,
+                   f"{[info[i] for i in failing[:3]]} {log[:500]}")
+
+
 def d_spaces(ctx):
     """<text:s text:c=RAW/> through the real read_odt: number of spaces between two tokens vs the model."""
     from sharepoint2text.parsing.extractors.open_office.odt_extractor import read_odt
@@ -674,7 +737,8 @@ def run(ctx):
     logging.disable(logging.CRITICAL)
     warnings.filterwarnings("ignore", message="Duplicate name")
     ctx.rule = ("limit lattice (each limit -1/0/+1, 0 and negative limits); random archives (zip/tar/7z, members around the "
-                "per-member limit, dirs/hidden/unsupported interleaved); random ODS repeat structures; measured amplifiers. "
+                "per-member limit re-configured between archives, dirs/hidden/unsupported interleaved); random ODS repeat structures "
+                "over 9 encodings of an empty cell; sparse/dense XLSX sheets; measured amplifier families and CPU scaling. "
                 "non-trivial = a size within +-1 of a limit, an oversize member, a repeat attribute > 1, or an amplifier")
     ctx.trusted += [
         "G-dump of MAX_7Z_FILE_SIZE, MAX_MEMORY_SIZE, MAX_ARCHIVE_FILE_SIZE and read_file's default from the live modules",
@@ -687,15 +751,17 @@ def run(ctx):
     ]
     ctx.assumptions += ["resource usage is measured, not proved; the theorems cover the size arithmetic and limit decisions"]
     lim = gen_limits(ctx)
-    ctx.prove("C12/Props.v", ["C12/Proofs.vo", "C12/Corr.vo"], expected=[
+    ctx.prove("C12/Props.v", ["C12/Proofs.vo", "C12/Corr.vo", "C12/Xlsx.vo"], expected=[
         "C12_read_file_limit_exact", "C12_sevenz_limit_exact", "C12_zip_tar_oversize_untouched",
         "C12_sevenz_oversize_not_decompressed_refuted", "C12_ods_output_linear_refuted", "C12_ods_bounded_repeats_partial",
-        "C12_odf_space_count_spec", "C12_odf_space_count_unbounded_refuted"])
+        "C12_odf_space_count_spec", "C12_odf_space_count_unbounded_refuted", "C12_xlsx_text_is_full_grid",
+        "C12_xlsx_output_linear_refuted", "C12_xlsx_output_linear_refuted_columns", "C12_xlsx_dense_sheet_linear_partial"])
     ctx.prove("C12/Inst.v", ["Gen/C12Limits.vo", "C12/Proofs.vo"], expected=[
         "C12_sevenz_limit_is_100MB", "C12_read_file_default_on", "C12_member_limit_consistent"])
     d_limits(ctx, lim)
     d_archives(ctx)
     d_ods(ctx)
+    d_xlsx(ctx)
     d_spaces(ctx)
     measured(ctx)
     scaling(ctx)
@@ -709,7 +775,11 @@ META = {
                   "limit are never decompressed or processed; for 7z the same statement is refuted (every regular member is "
                   "decoded and written) and only 'never processed' holds; the ODS repeat expansion size is exactly raw_cells, "
                   "which is unbounded in the input size (refutation) but <= k^2 per element for repeats <= k and <= 100^2 for "
-                  "empty cells. Partial: actual memory/time of CPython and third-party parsers is measured, not proved.",
+                  "empty cells; the XLSX text block of a sheet is exactly the max_row x max_col grid (two cells far apart refute "
+                  "linearity, a dense sheet is linear); the per-member limit in force is the one configured last. Partial: actual "
+                  "memory/time of CPython and third-party parsers is measured, not proved (amplifier families of the property "
+                  "text: declared dimensions, entities, nesting depth, OLE property vectors, PDF object loops, extreme ratios, "
+                  "member-lookup scaling).",
     "level_note": "Trusted: Coq kernel+VM; G-dump of constants; hand models tied by differential runs; monitors; "
                   "the measured worker is evidence only.",
 }
